@@ -571,7 +571,7 @@ def _is_optional_anyof(field: AnyOf) -> bool:
 
 def _extract_non_nonefield_from_optional(field: AnyOf) -> Field:
     fields = field.get_fields()
-    return fields[0] if fields[1].__class__ is NoneField else fields[0]
+    return fields[0] if fields[1].__class__ is NoneField else fields[1]
 
 
 @lru_cache(maxsize=128)
@@ -584,20 +584,21 @@ def _structure_simplicity_level(cls):
 
     simplicity = _ClsSimplicity.not_nested
     for v in cls.get_all_fields_by_name().values():
+        if isinstance(v, AnyOf) and _is_optional_anyof(v):
+            # an optional field is as simple as its non-None option
+            simplicity = _ClsSimplicity.nested
+            v = _extract_non_nonefield_from_optional(v)
         if isinstance(v, SerializableField):
             simplicity = _ClsSimplicity.nested
         if isinstance(v, _valid_classes_for_trusted_deserialization):
             continue
         if isinstance(v, AnyOf):
             for f in v.get_fields():
-                if _is_optional_anyof(v):
-                    simplicity = _ClsSimplicity.nested
-                    continue
                 if not isinstance(f, _valid_classes_for_trusted_deserialization):
                     return False
             continue
         if isinstance(v, Array):
-            if isinstance(v, SerializableField):
+            if isinstance(v.items, SerializableField):
                 simplicity = _ClsSimplicity.nested
             if isinstance(v.items, _valid_classes_for_trusted_deserialization):
                 continue
@@ -632,10 +633,13 @@ def _get_enum_mapping(cls):
         for k, v in cls.get_all_fields_by_name().items()
         if isinstance(v, Enum) and getattr(v, "_is_enum", False)
     }
-    optionals =  {
-        k: getattr(getattr(v, "_fields")[0], "_enum_class")
+    optionals = {
+        k: getattr(_extract_non_nonefield_from_optional(v), "_enum_class")
         for k, v in cls.get_all_fields_by_name().items()
-        if isinstance(v, AnyOf) and getattr(v, "_is_optional") and isinstance(getattr(v, "_fields")[0], Enum)
+        if isinstance(v, AnyOf)
+        and _is_optional_anyof(v)
+        and isinstance(_extract_non_nonefield_from_optional(v), Enum)
+        and getattr(_extract_non_nonefield_from_optional(v), "_is_enum", False)
     }
     return {**without_optionals, **optionals}
 
@@ -708,18 +712,17 @@ def _remap_input(
                     for x in v
                 ]
             elif isinstance(field_def.items, SerializableField):
-                corrected_input[k] = field_def.items.deserialize(v)
+                corrected_input[k] = [field_def.items.deserialize(x) for x in v]
             else:
                 corrected_input[k] = v
 
         elif isinstance(field_def, Set):
-            if isinstance(
-                field_def.items, (Integer, String, Float, Boolean, NoneField)
-            ):
-                corrected_input[k] = set(v)
-            elif isinstance(field_def.items, SerializableField):
+            if isinstance(field_def.items, SerializableField):
                 corrected_input[k] = {field_def.items.deserialize(x) for x in v}
-            elif isinstance(field_def.items, ClassReference):
+            elif not isinstance(field_def.items, ClassReference):
+                # every other item type the classifier admits is a plain JSON scalar
+                corrected_input[k] = set(v)
+            else:
                 corrected_input[k] = {
                     deserialize_structure_internal(
                         field_def.items.get_type,
